@@ -528,7 +528,9 @@ func oracleStream(prop string, mr *muxRun, rs *reqState, cnt *[core.NumCounters]
 	cv := rs.decodeResponse(resp)
 	writeFault := fault == "abort" || fault == "wbreak"
 	viaBackend := l == &rs.blog // the script ran on a backend behind the proxy (not on a local handler of the same method)
-	if viaBackend && (fault == "readerr" || fault == "cut" && rs.cutMid) {
+	// (a gzip body cut anywhere short of its end is a broken stream too)
+	cutBroken := rs.cutMid || sp.Proto == "http" && sp.Compress && rs.end < len(rs.wire)
+	if viaBackend && (fault == "readerr" || fault == "cut" && cutBroken) {
 		// the request side of a proxied stream broke: the proxy ends the
 		// backend call, so what the backend still manages to send and which
 		// status the client sees are not prescribed
